@@ -242,6 +242,7 @@ type amfDec struct {
 	spec   []abs.SegSpec
 	fields map[string]Want
 	nprops int // expected number of properties (-1 = not a container)
+	expErr bool // the input is malformed and must be rejected
 }
 
 func childSpec(kind string, i int, dom map[string]Dom) []abs.SegSpec {
@@ -273,6 +274,16 @@ func amfDecodeCases() []amfDec {
 		{name: "objectEOF", typ: "objectEOF", spec: abs.ConstBytes(0, 0, 9), nprops: -1},
 		{name: "null", typ: "null", ctor: "NewNull", spec: abs.ConstBytes(5), nprops: -1},
 		{name: "undefined", typ: "undefined", ctor: "NewUndefined", spec: abs.ConstBytes(6), nprops: -1},
+	}
+	// malformed: the object-end marker as the value of a named property (only an empty name may precede it)
+	for _, t := range []string{"Object", "EcmaArray"} {
+		dom := map[string]Dom{"cnt": {W: 32, Hi: -1}, "len(key0)": {W: 16, Lo: 1, Hi: -1}}
+		body := abs.Cat(abs.BE("len(key0)", 2), abs.BlobSpec("key0", abs.LAtom("len(key0)")), abs.ConstBytes(9, 0, 0, 9))
+		spec := abs.Cat(abs.ConstBytes(3), body)
+		if t == "EcmaArray" {
+			spec = abs.Cat(abs.ConstBytes(8), abs.BE("cnt", 4), body)
+		}
+		cases = append(cases, amfDec{name: t + ",object-end-marker-as-named-value", typ: t, ctor: "New" + t, dom: dom, spec: spec, nprops: -1, expErr: true})
 	}
 	kinds := [][]string{{}, {"number"}, {"string", "null"}, {"object", "number"}}
 	for _, ks := range kinds {
@@ -350,7 +361,12 @@ func amfDecodeChecks(c *Ctx, e *abs.Engine, ruleConsumed, ruleScalar string, ski
 				consumed = append(consumed, "undecided: no result")
 				continue
 			}
-			if _, isNil := r.Ret[0].(*abs.NilV); !isNil {
+			if _, isNil := r.Ret[0].(*abs.NilV); cs.expErr {
+				if isNil {
+					consumed = append(consumed, "a malformed encoding (marker 9 as the value of a named property) is accepted: the rest of the container is silently dropped and Size() no longer matches the bytes consumed"+pathSuffix(r))
+				}
+				continue
+			} else if !isNil {
 				consumed = append(consumed, "a well-formed encoding is rejected: "+abs.Describe(r.Path, r.Ret[0])+pathSuffix(r))
 				continue
 			}
